@@ -233,6 +233,7 @@ def ProvBundle_eq(self: "ProvBundle", other: "Val") -> "bool":
     invariant("L2", "other-unchanged", same(other_records, entry("other_records")))
     invariant("L2", "none-equal-so-far",
               forall(lambda j: implies(0 <= j and j < _i, not EqRecord(record_a, _elem(j))), "int"))
+    after_loop("L2", "record-a-has-no-partner-left", not os_has(other_records, rkey(record_a)))
     ensures("same-record-set", result == (isinst(other, "ProvBundle") and SameRecordSet(self, as_ref(other, "ProvBundle"))))
 
 
